@@ -1,0 +1,116 @@
+//go:build verif
+
+package lexer
+
+// Contracts for the lexer, checked by /verif/bin/plushvc (see /verif/DESIGN.md).
+// This file contains only comments; it is compiled only under the build tag "verif".
+
+//@ spec nl(s string, i int) int
+//@ axiom nl0: forall s string :: nl(s, 0) == 0
+//@ axiom nlS: forall s string, i int :: 0 <= i && i < len(s) ==> nl(s, i+1) == nl(s, i) + ite(s[i] == '\n', 1, 0)
+
+//@ pred lline(l *Lexer) = l.curLine == 1 + nl(l.input, min(l.readPosition, len(l.input)))
+//@ pred linv(l *Lexer) = l.readPosition >= 1 && l.position == l.readPosition-1 &&
+//@     (l.position < len(l.input) ==> l.ch == l.input[l.position]) &&
+//@     (l.position >= len(l.input) ==> l.ch == 0) && lline(l)
+//@ spec fuel(l *Lexer) int = len(l.input) + 2 - min(l.position, len(l.input)+2)
+
+//@ func (l *Lexer) readChar
+//@ requires l.readPosition >= 0 && lline(l)
+//@ ensures inv: linv(l)
+//@ ensures pos: l.position == old(l.readPosition) && l.readPosition == old(l.readPosition)+1
+//@ ensures same: l.input == old(l.input) && l.inside == old(l.inside)
+//@ assigns l.ch, l.position, l.readPosition, l.curLine
+
+//@ func (l *Lexer) peekChar
+//@ requires l.readPosition >= 0
+//@ ensures val: result == ite(l.readPosition < len(l.input), l.input[l.readPosition], 0)
+//@ assigns nothing
+
+//@ func New
+//@ ensures inv: linv(result) && result.input == input && !result.inside && result.position == 0
+//@ ensures fresh: fresh(result)
+//@ assigns fresh
+
+//@ func (l *Lexer) prevChar
+//@ requires linv(l) && l.position < len(l.input)
+//@ ensures prev: l.position >= 1 ==> result == l.input[l.position-1]
+//@ ensures first: l.position == 0 ==> result == l.input[0]
+//@ assigns nothing
+
+//@ pred lsame(l *Lexer) = l.input == old(l.input) && l.inside == old(l.inside)
+//@ pred lprogress(l *Lexer) = linv(l) && l.input == old(l.input) && l.position >= old(l.position) && fuel(l) <= old(fuel(l))
+
+//@ func (l *Lexer) skipWhitespace
+//@ requires linv(l)
+//@ ensures inv: lprogress(l) && l.inside == old(l.inside)
+//@ assigns l.ch, l.position, l.readPosition, l.curLine
+//@ loop 1: invariant linv(l) && l.input == old(l.input) && l.inside == old(l.inside) && l.position >= old(l.position) && fuel(l) <= old(fuel(l))
+//@ loop 1: decreases fuel(l)
+
+//@ func (l *Lexer) readIdentifier
+//@ requires linv(l) && l.position <= len(l.input)
+//@ ensures inv: lprogress(l) && l.inside == old(l.inside) && l.position <= len(l.input)
+//@ ensures text: result == l.input[old(l.position):l.position]
+//@ ensures moved: letter(old(l.ch)) || digit(old(l.ch)) ==> fuel(l) < old(fuel(l))
+//@ assigns l.ch, l.position, l.readPosition, l.curLine
+//@ loop 1: invariant linv(l) && l.input == old(l.input) && l.inside == old(l.inside) && l.position >= old(l.position) && fuel(l) <= old(fuel(l)) && l.position <= len(l.input) && position == old(l.position)
+//@ loop 1: invariant moved: l.position > old(l.position) ==> fuel(l) < old(fuel(l))
+//@ loop 1: invariant still: l.position == old(l.position) ==> l.ch == old(l.ch)
+//@ loop 1: decreases fuel(l)
+
+//@ func (l *Lexer) readNumber
+//@ requires linv(l) && l.position <= len(l.input)
+//@ ensures inv: lprogress(l) && l.inside == old(l.inside) && l.position <= len(l.input)
+//@ ensures text: result == l.input[old(l.position):l.position]
+//@ ensures moved: digit(old(l.ch)) ==> fuel(l) < old(fuel(l))
+//@ assigns l.ch, l.position, l.readPosition, l.curLine
+//@ loop 1: invariant linv(l) && l.input == old(l.input) && l.inside == old(l.inside) && l.position >= old(l.position) && fuel(l) <= old(fuel(l)) && l.position <= len(l.input) && position == old(l.position)
+//@ loop 1: invariant moved: l.position > old(l.position) ==> fuel(l) < old(fuel(l))
+//@ loop 1: invariant still: l.position == old(l.position) ==> l.ch == old(l.ch)
+//@ loop 1: decreases fuel(l)
+
+//@ spec peekc(l *Lexer) byte = ite(l.readPosition < len(l.input), l.input[l.readPosition], 0)
+//@ pred letter(c byte) = ('a' <= c && c <= 'z') || ('A' <= c && c <= 'Z') || c == '_' || c == '-'
+//@ pred digit(c byte) = ('0' <= c && c <= '9') || c == '.'
+
+//@ func (l *Lexer) readString
+//@ requires linv(l) && l.ch == '"'
+//@ ensures inv: lprogress(l) && l.inside == old(l.inside) && fuel(l) < old(fuel(l))
+//@ assigns l.ch, l.position, l.readPosition, l.curLine
+//@ loop 1: invariant linv(l) && l.input == old(l.input) && l.inside == old(l.inside) && fuel(l) <= old(fuel(l)) && l.position <= len(l.input) && position == old(l.position)+1
+//@ loop 1: invariant started: (l.position == old(l.position) && l.ch != 0) || (l.position >= position && fuel(l) < old(fuel(l)))
+//@ loop 1: decreases fuel(l)
+
+//@ func (l *Lexer) readBString
+//@ requires linv(l) && l.ch == '`'
+//@ ensures inv: lprogress(l) && l.inside == old(l.inside) && fuel(l) < old(fuel(l))
+//@ assigns l.ch, l.position, l.readPosition, l.curLine
+//@ loop 1: invariant linv(l) && l.input == old(l.input) && l.inside == old(l.inside) && fuel(l) <= old(fuel(l)) && l.position <= len(l.input) && position == old(l.position)+1
+//@ loop 1: invariant started: (l.position == old(l.position) && l.ch != 0) || (l.position >= position && fuel(l) < old(fuel(l)))
+//@ loop 1: decreases fuel(l)
+
+//@ func (l *Lexer) readHTML
+//@ requires linv(l) && l.ch != 0 && !(l.ch == '<' && peekc(l) == '%')
+//@ ensures inv: lprogress(l) && fuel(l) < old(fuel(l))
+//@ assigns l.ch, l.position, l.readPosition, l.curLine, l.inside
+//@ loop 1: invariant linv(l) && l.input == old(l.input) && fuel(l) <= old(fuel(l)) && l.position <= len(l.input) && position == old(l.position) && l.position >= position
+//@ loop 1: invariant started: l.position == old(l.position) ==> !(l.ch == '<' && peekc(l) == '%')
+//@ loop 1: invariant moved: l.position > old(l.position) ==> fuel(l) < old(fuel(l))
+//@ loop 1: decreases fuel(l)
+
+//@ func (l *Lexer) nextInsideToken
+//@ requires linv(l)
+//@ ensures inv: lprogress(l)
+//@ ensures progress: result.Type != token.EOF ==> fuel(l) < old(fuel(l))
+//@ assigns l.ch, l.position, l.readPosition, l.curLine, l.inside
+//@ decreases fuel(l)
+//@ loop 1: invariant linv(l) && l.input == old(l.input) && fuel(l) <= old(fuel(l))
+//@ loop 1: invariant once: fuel(l) < old(fuel(l)) || l.ch == '#'
+//@ loop 1: decreases fuel(l)
+
+//@ func (l *Lexer) NextToken
+//@ requires linv(l)
+//@ ensures inv: lprogress(l)
+//@ ensures progress: result.Type != token.EOF ==> fuel(l) < old(fuel(l))
+//@ assigns l.ch, l.position, l.readPosition, l.curLine, l.inside
